@@ -10,6 +10,7 @@ from .tape import Tape, derive_seed
 SCENARIOS = {
     "C14": [("heap", "sim.heapsim", "run", 1)],
     "C09": [("twin", "sim.c09", "run", 1)],
+    "C11": [("files", "sim.c11", "run_files", 2), ("files_faults", "sim.c11", "run_files_faults", 2)],
 }
 
 
@@ -37,6 +38,7 @@ def execute(prop, scenario, tape, tier="quick", keep_events=False):
     res = {"prop": prop, "scenario": scenario, "violation": None, "error": None,
            "discard": False}
     try:
+        core.reset_run_state()
         fn(ctx)
     except core.Violation as v:
         res["violation"] = v.as_dict()
